@@ -29,9 +29,10 @@ PLAN = {
     "C10": {"steps": [codec()]},
     "C12": {"steps": [codec()]},
     "C13": {"steps": [codec()]},
+    "C05": {"steps": [lang()]},
     "C14": {"steps": [lang()]},
     "C15": {"steps": [lang()]},
-    "C16": {"steps": [codec(part="dynamic")]},
+    "C16": {"steps": [codec(part="dynamic"), lang()]},
     "C17": {"steps": [codec()]},
     "C09": {"steps": [net(), net(variant="race", tiers=["thorough"], scale={"thorough": 0.05})]},
     "C11": {"steps": [net()]},
